@@ -38,9 +38,9 @@ from simkit.c03_zoo import VARIANT, ZOO  # noqa: E402
 from simkit.world import InvalidScenario, result  # noqa: E402
 
 PROPERTY = "C03"
-RUNS = {"quick": 408, "thorough": 60_000}
+RUNS = {"quick": 340, "thorough": 60_000}
 WALL = {"quick": 45, "thorough": 1500}
-BATCH = {"quick": 8, "thorough": 40}
+BATCH = {"quick": 4, "thorough": 40}
 SELFTEST_RUNS = 6
 SHRINK_BUDGET_S = {"quick": 20.0, "thorough": 60.0}
 SHRINK_SKIP = ("params", "model")
@@ -76,7 +76,7 @@ ASSUMPTIONS = [
 EXPECTED_PROBES = ["fault.repeat", "fault.after_others", "fault.wall_offset", "fault.wall_fast", "fault.wall_frozen",
                    "fault.hashseed_1", "fault.hashseed_4242", "fault.fresh_spawn", "probe.event_counter_dirty",
                    "probe.module_random_drawn", "probe.numpy_random_drawn", "probe.uuid4_called_by_model",
-                   "probe.wall_clock_read_by_model"]
+                   "probe.wall_clock_read_by_model", "probe.difference_confirmed_in_subprocess", "obs.random_seed_only_runs"]
 
 HASHSEEDS = (0, 1, 4242)
 WALL_MODES = ("offset", "fast", "frozen")
@@ -93,7 +93,7 @@ class ChildError(Exception):
 # ---------------------------------------------------------------------------
 
 # models with many categorical variants are drawn more often (swarm over code paths, not over model names)
-WEIGHT = {"cached_store": 4, "multi_tier_cache": 2, "queue_policies": 3, "load_balancer": 3, "rate_limiters": 2,
+WEIGHT = {"cached_store": 4, "multi_tier_cache": 2, "queue_policies": 2, "load_balancer": 2, "rate_limiters": 3,
           "event_log_group": 2, "leader_election": 2, "lsm_wal": 2}
 _PICK = [m for m in MODELS for _ in range(WEIGHT.get(m, 1))]
 
@@ -113,7 +113,8 @@ def gen(rng, tier):
         "repeat": rng.random() < 0.85,
         "after_others": n_others > 0,
         "wall": wall,
-        "hs": [h for h in HASHSEEDS[1:] if rng.random() < 0.9],
+        # one or both alternative hash seeds (each costs one more interpreter)
+        "hs": list(HASHSEEDS[1:]) if rng.random() < 0.3 else [HASHSEEDS[1:][rng.randrange(2)]],
         "fresh": rng.random() < (0.06 if tier == "quick" else 0.02),
         "obs_numpy": rng.random() < 0.25,
     }
@@ -317,21 +318,23 @@ def _program(sc) -> list:
     return prog
 
 
-def _execute(prog: list, full: bool, spawn_all: bool = False) -> list:
-    """-> [(kind, hash seed, result)] in program order; the first entry is the reference.  The steps run in different
-    interpreters, so they are started together and collected in order."""
+def _execute(prog: list, full: bool, spawn_all: bool = False, only=None) -> list:
+    """-> [(kind, hash seed, result, step index)] in program order; the first entry is the reference.  The steps run in
+    different interpreters, so they are started together and collected in order.  `only`: step indices to run."""
+    steps = [(i, st) for i, st in enumerate(prog) if only is None or i in only]
     handles = []
     try:
-        for step in prog:
+        for _, step in steps:
             handles.append(_start(step["hs"], "spawn" if (spawn_all or step["how"] == "spawn") else "fork", step["jobs"], full))
         results = [_finish(h) for h in handles]
     except BaseException:
         _abort(handles)
         raise
     out = []
-    for step, res in zip(prog, results):
+    for (i, step), res in zip(steps, results):
         for kind, idx in step["marks"]:
-            out.append((kind, step["hs"], res[idx]))
+            if not kind.startswith("obs-") or not full:
+                out.append((kind, step["hs"], res[idx], i))
     return out
 
 
@@ -349,7 +352,7 @@ def run(sc):
     model, variant = sc["model"], VARIANT[sc["model"]](sc["params"])
     counters = {f"model.{model}": 1}
     after = None
-    for kind, hs, r in runs[1:]:
+    for kind, hs, r, _ in runs[1:]:
         key = {"hashseed": f"fault.hashseed_{hs}", "fresh-spawn": "fault.fresh_spawn",
                "fresh-spawn-hashseed": "fault.fresh_spawn"}.get(kind, "fault." + kind.replace("-", "_"))
         counters[key] = counters.get(key, 0) + 1
@@ -362,37 +365,46 @@ def run(sc):
     counters["probe.uuid4_called_by_model"] = int(obs["uuid4_calls"] > 1)        # 1 = the monitor's own hook id
     counters["probe.wall_clock_read_by_model"] = int(obs["wall_reads"] > 2)      # 2 = Simulation's own wall_clock_seconds
     counters["probe.event_counter_dirty"] = int(after is not None and after["obs"]["event_counter_before"] > 0)
-    for _, _, r in obs_runs:
+    for _, _, r, _ in obs_runs:
         counters["obs.random_seed_only_runs"] = counters.get("obs.random_seed_only_runs", 0) + 1
         counters["obs.random_seed_only_changes_run"] = counters.get("obs.random_seed_only_changes_run", 0) + int(r["digest"] != ref["digest"])
+    for name, fired in (ref.get("probes") or {}).items():
+        counters[f"probe.zoo.{name}"] = int(fired)
     counters["probe.budget_hit"] = int(ref["status"] == "budget")
     counters["probe.repo_exception_in_run"] = int(ref["status"] not in ("ok", "budget"))
 
-    sig = msg = None
-    bad = [(k, hs) for k, hs, r in runs[1:] if r["digest"] != ref["digest"]]
-    if bad:
-        # confirm with full logs; every step in a literal fresh subprocess this time
-        full = [x for x in _execute(prog, full=True, spawn_all=True) if not x[0].startswith("obs-")]
-        fref = full[0][2]
-        for kind, hs, r in full[1:]:
+    def judge(full_runs):
+        fref = full_runs[0][2]
+        for kind, hs, r, _ in full_runs[1:]:
             if r["digest"] != fref["digest"]:
                 thing, why = first_difference(fref, r)
                 k = KIND_SIG.get(kind, kind)
-                sig = f"C03/{model}:{variant}/{thing}/{k}"
-                msg = (f"model {model} ({variant}) seed {sc['seed']}: run '{kind}'"
-                       + (f" (PYTHONHASHSEED={hs})" if k == "hashseed" else "") + f" differs from the reference run: {why}")
-                break
-        if sig is None:
-            kind, hs = bad[0]
-            if fref["digest"] != ref["digest"]:
-                thing, why = "unstable", "the reference itself changed between the forked and the spawned interpreter"
-                k = "fresh-process"
-            else:
-                thing, why, k = "unstable", "difference seen once, not reproduced in fresh subprocesses", KIND_SIG.get(kind, kind)
-            sig = f"C03/{model}:{variant}/{thing}/{k}"
-            msg = f"model {model} ({variant}) seed {sc['seed']}: run '{kind}' differed from the reference run; {why}"
+                return (f"C03/{model}:{variant}/{thing}/{k}",
+                        f"model {model} ({variant}) seed {sc['seed']}: run '{kind}'"
+                        + (f" (PYTHONHASHSEED={hs})" if k == "hashseed" else "") + f" differs from the reference run: {why}")
+        return None
+
+    sig = msg = None
+    bad = [(k, hs, i) for k, hs, r, i in runs[1:] if r["digest"] != ref["digest"]]
+    if bad:
+        # confirm in literal fresh subprocesses, with full logs: first only the reference step and the step of the first
+        # difference (program order); if that does not reproduce it, every step
+        counters["probe.difference_confirmed_in_subprocess"] = 1
+        verdict = judge(_execute(prog, full=True, spawn_all=True, only={0, bad[0][2]}))
+        if verdict is None:
+            full = _execute(prog, full=True, spawn_all=True)
+            verdict = judge(full)
+            if verdict is None:
+                kind, hs, _ = bad[0]
+                if full[0][2]["digest"] != ref["digest"]:
+                    thing, why, k = "unstable", "the reference itself changed between the forked and the spawned interpreter", "fresh-process"
+                else:
+                    thing, why, k = "unstable", "difference seen once, not reproduced in fresh subprocesses", KIND_SIG.get(kind, kind)
+                verdict = (f"C03/{model}:{variant}/{thing}/{k}",
+                           f"model {model} ({variant}) seed {sc['seed']}: run '{kind}' differed from the reference run; {why}")
+        sig, msg = verdict
     n_cmp = len(runs) - 1
     bucket = min(ref["n"] // 500, 9)
     return result(sig=sig, msg=msg or "", digest=ref["digest"], nontrivial=ref["n"] >= 30 and n_cmp >= 3, counters=counters,
                   sim_s=ref["sim_s"], deliveries=ref["n"], klass=ZOO[model]["family"], state=f"{model}:{variant}:{bucket}",
-                  extra={"compared": [k for k, _, _ in runs[1:]]})
+                  extra={"compared": [k for k, _, _, _ in runs[1:]]})
